@@ -120,6 +120,7 @@ type run = {
   mutable diverged : bool;
   mutable cur : icall option array;    (* call in flight per thread *)
   mutable iheld : (int * int) list;    (* blocks held by the client, from the implementation's results *)
+  mutable limbo : icall list;          (* calls that panicked: their blocks stay 'touched' for the rest of the run *)
   mutable msgs : (string * string * string) list;   (* kind, tag, text: flushed with the schedule at END *)
   mutable sched : string;
   mutable tids : Buffer.t;
@@ -131,7 +132,7 @@ type run = {
 
 let r =
   { id = ""; scenario = ""; mode = ""; cfg = ""; g = { hord = nat_of_int 9; tlog = nat_of_int 2 }; hf = 512; tf = 2048;
-    thuge = 4; rows = 8; nframes = 0; nthreads = 0; ms = None; diverged = false; cur = [||]; iheld = []; msgs = [];
+    thuge = 4; rows = 8; nframes = 0; nthreads = 0; ms = None; diverged = false; cur = [||]; iheld = []; limbo = []; msgs = [];
     sched = "?"; tids = Buffer.create 64; nontrivial = false; prev = -1; nsteps = 0; active = false }
 
 (* summary counters *)
@@ -361,6 +362,7 @@ let do_ret tid impl =
   (* oracles *)
   if is_panic then begin
     incr panics;
+    r.limbo <- call :: r.limbo;
     if contains impl "Exceeding retries" then incr known_panics;
     oracle "[C03]" (Printf.sprintf "thread %d %s: %s" tid (show_icall call) impl)
   end;
@@ -401,54 +403,102 @@ let rec cover (l : int list) (gets : icall list) : bool =
       in
       List.exists try_get gets
 
+let snap_memo : (string, (string * string * string) list) Hashtbl.t = Hashtbl.create 4096
+let snap_hits = ref 0
+
+let replace_all s sub by =
+  let n = String.length sub in
+  let b = Buffer.create (String.length s) in
+  let i = ref 0 in
+  while !i < String.length s do
+    if !i + n <= String.length s && String.sub s !i n = sub then (Buffer.add_string b by; i := !i + n)
+    else (Buffer.add_char b s.[!i]; incr i)
+  done;
+  Buffer.contents b
+
+(* the checks of one snapshot; results (with @STEP@ for the step number) are memoised on everything they depend on *)
+let snap_checks rest inflight mem : (string * string * string) list =
+  let out = ref [] in
+  let add kind tag text = out := (kind, tag, text) :: !out in
+  let ents = parse_ents (kv_exn rest "ents") and rows = parse_rows (kv_exn rest "rows") in
+  let l = { frames = n_of_int r.nframes; bfs = rows; ents } in
+  let where = Printf.sprintf "snapshot at step @STEP@ (in flight: %s)" inflight in
+  (* correspondence of recover with the model, on the machine's memory *)
+  (match mem with
+  | Some ml ->
+      let m = lower_recover r.g ml in
+      if show_ents m.ents <> show_ents ents || show_rows m.bfs <> show_rows rows then
+        add "CORR" "[snap]"
+          (Printf.sprintf "%s: recovered impl=[ents=%s rows=%s] model=[ents=%s rows=%s]" where (show_ents ents) (show_rows rows)
+             (show_ents m.ents) (show_rows m.bfs))
+  | None -> ());
+  if not (lower_invb r.g l) then
+    add "ORACLE" "[C05]" (Printf.sprintf "%s: lower_invb fails on the recovered state ents=%s rows=%s" where (show_ents ents) (show_rows rows));
+  let a = abs r.g l in
+  List.iter
+    (fun (f, o) ->
+      if not (spec_put_enabled r.g a (n_of_int f) (nat_of_int o)) then
+        add "ORACLE" "[C05]" (Printf.sprintf "%s: held block frame %d order %d is not allocated/freeable after recovery" where f o))
+    r.iheld;
+  let alloc = bits_array a.o_alloc r.nframes in
+  let owned = Array.make r.nframes false in
+  let mark (f, o) = for i = f to min (r.nframes - 1) (f + (1 lsl o) - 1) do owned.(i) <- true done in
+  List.iter mark r.iheld;
+  let gets = ref [] in
+  let touch = function IPut (f, o) -> mark (f, o) | c -> gets := c :: !gets in
+  Array.iter (function Some c -> touch c | None -> ()) r.cur;
+  List.iter touch r.limbo;
+  let leaked = ref [] in
+  for i = r.nframes - 1 downto 0 do
+    if alloc.(i) && not owned.(i) then leaked := i :: !leaked
+  done;
+  if not (cover !leaked !gets) then
+    add "ORACLE" "[C05]"
+      (Printf.sprintf "%s: %d frames that were free and untouched are allocated after recovery (first: %d)" where (List.length !leaked)
+         (List.hd !leaked));
+  (match kv rest "stats" with
+  | Some s -> (
+      match String.split_on_char ',' s with
+      | [ ff; fh; _ft ] ->
+          let ef = dec_of_n (exact_free a) and eh = dec_of_n (free_huge_count r.g a) in
+          if ff <> ef then add "ORACLE" "[C05]" (Printf.sprintf "%s: recovered stats free_frames=%s but abs has %s free frames" where ff ef);
+          if fh <> eh then add "ORACLE" "[C05]" (Printf.sprintf "%s: recovered stats free_huge=%s but abs has %s free huge frames" where fh eh)
+      | _ -> failwith "bad stats")
+  | None -> ());
+  List.rev !out
+
 let do_snap tokens =
   incr snaps;
   match tokens with
   | step :: "panic" :: rest -> oracle "[C05]" (Printf.sprintf "snapshot %s: recovery panics: %s" step (String.concat " " rest))
   | step :: rest ->
-      let ents = parse_ents (kv_exn rest "ents") and rows = parse_rows (kv_exn rest "rows") in
-      let l = { frames = n_of_int r.nframes; bfs = rows; ents } in
-      let where = Printf.sprintf "snapshot at step %s (in flight: %s)" step
-          (String.concat ", " (List.filter_map (fun x -> x) (Array.to_list (Array.mapi (fun t c -> match c with Some c -> Some (Printf.sprintf "t%d %s" t (show_icall c)) | None -> None) r.cur)))) in
-      (* correspondence of recover with the model, on the machine's memory *)
-      (match r.ms with
-      | Some ms ->
-          let m = lower_recover r.g (lower_of ms) in
-          if show_ents m.ents <> show_ents ents || show_rows m.bfs <> show_rows rows then
-            corr "[snap]"
-              (Printf.sprintf "%s: recovered impl=[ents=%s rows=%s] model=[ents=%s rows=%s]" where (show_ents ents) (show_rows rows)
-                 (show_ents m.ents) (show_rows m.bfs))
-      | None -> ());
-      if not (lower_invb r.g l) then oracle "[C05]" (Printf.sprintf "%s: lower_invb fails on the recovered state ents=%s rows=%s" where (show_ents ents) (show_rows rows));
-      let a = abs r.g l in
+      let calls l = String.concat ", " l in
+      let inflight =
+        calls
+          (List.filter_map (fun x -> x)
+             (Array.to_list (Array.mapi (fun t c -> match c with Some c -> Some (Printf.sprintf "t%d %s" t (show_icall c)) | None -> None) r.cur))
+          @ List.map (fun c -> "panicked " ^ show_icall c) r.limbo)
+      in
+      let mem = match r.ms with Some ms -> Some (lower_of ms) | None -> None in
+      let key =
+        String.concat "|"
+          [ r.cfg; String.concat " " rest; inflight;
+            String.concat " " (List.map (fun (f, o) -> Printf.sprintf "%d/%d" f o) (List.sort compare r.iheld));
+            (match mem with Some m -> show_ents m.ents ^ " " ^ show_rows m.bfs | None -> "-") ]
+      in
+      let res =
+        match Hashtbl.find_opt snap_memo key with
+        | Some x -> incr snap_hits; x
+        | None ->
+            let x = snap_checks rest inflight mem in
+            Hashtbl.replace snap_memo key x;
+            x
+      in
       List.iter
-        (fun (f, o) ->
-          if not (spec_put_enabled r.g a (n_of_int f) (nat_of_int o)) then
-            oracle "[C05]" (Printf.sprintf "%s: held block frame %d order %d is not allocated/freeable after recovery" where f o))
-        r.iheld;
-      let alloc = bits_array a.o_alloc r.nframes in
-      let owned = Array.make r.nframes false in
-      let mark (f, o) = for i = f to min (r.nframes - 1) (f + (1 lsl o) - 1) do owned.(i) <- true done in
-      List.iter mark r.iheld;
-      let gets = ref [] in
-      Array.iter (function Some (IPut (f, o)) -> mark (f, o) | Some c -> gets := c :: !gets | None -> ()) r.cur;
-      let leaked = ref [] in
-      for i = r.nframes - 1 downto 0 do
-        if alloc.(i) && not owned.(i) then leaked := i :: !leaked
-      done;
-      if not (cover !leaked !gets) then
-        oracle "[C05]"
-          (Printf.sprintf "%s: %d frames that were free and untouched are allocated after recovery (first: %d)" where (List.length !leaked)
-             (List.hd !leaked));
-      (match kv rest "stats" with
-      | Some s -> (
-          match String.split_on_char ',' s with
-          | [ ff; fh; _ft ] ->
-              let ef = dec_of_n (exact_free a) and eh = dec_of_n (free_huge_count r.g a) in
-              if ff <> ef then oracle "[C05]" (Printf.sprintf "%s: recovered stats free_frames=%s but abs has %s free frames" where ff ef);
-              if fh <> eh then oracle "[C05]" (Printf.sprintf "%s: recovered stats free_huge=%s but abs has %s free huge frames" where fh eh)
-          | _ -> failwith "bad stats")
-      | None -> ())
+        (fun (kind, tag, text) ->
+          let text = replace_all text "@STEP@" step in
+          if kind = "CORR" then corr tag text else note kind tag text)
+        res
   | [] -> failwith "bad SNAP"
 
 let do_solo tokens =
@@ -509,6 +559,7 @@ let suite_step file keys =
           r.ms <- None;
           r.diverged <- false;
           r.iheld <- [];
+          r.limbo <- [];
           r.sched <- "?";
           Buffer.clear r.tids;
           r.nontrivial <- false;
